@@ -168,7 +168,8 @@ def stage_asan(tier, seed, sh, log):
     if not build_asan(log):
         res["inconclusive"].append("ASan build failed")
         return res
-    per = 1500 if tier == "quick" else 60000
+    total = 24000 if tier == "quick" else 960000
+    per = -(-total // JOBS)
     cmds = [([ASAN_VH, "c20-san", "--seed", str(seed), "--cases", str(per), "--shard", str(i)], None,
              {"ASAN_OPTIONS": "detect_leaks=1:halt_on_error=1"}, 7200) for i in range(JOBS)]
     for rc, out in _parallel(cmds):
@@ -189,7 +190,8 @@ def stage_miri(tier, seed, sh, log):
     if not build_miri(log):
         res["inconclusive"].append("Miri build failed")
         return res
-    per = 3 if tier == "quick" else 60
+    total = 48 if tier == "quick" else 960
+    per = -(-total // JOBS)
     cmds = []
     for i in range(JOBS):
         c, e = miri_cmd(seed, per, i)
